@@ -22,7 +22,9 @@ CONSTANTS Mode,        \* "MR" | "TAB"
           PowMulN,     \* powmul: (v, p) samples per first leaf  (0 = all)
           SimpN,       \* simp: (v, w, p) samples per first leaf (0 = all)
           RuleN,       \* rules: partners per first leaf        (0 = all)
-          HistN        \* state: registry histories sampled per first leaf (MR mode only)
+          HistN,       \* state: registry histories sampled per first leaf (MR mode only)
+          CoefN,       \* coef: (v, w, p) samples per first leaf
+          EqN          \* eqsem in TAB mode: partners of the same dimension class per first leaf (0 = all)
 
 (* ------------------------------ exponents -------------------------------- *)
 PSeq == <<Ex(2, 1, "int"), Ex(3, 1, "int"), Ex(-1, 1, "int"), Ex(-2, 1, "int"), Ex(-3, 1, "int"),
@@ -42,6 +44,15 @@ Leaf == 1..NLeaves
 Sample(i, t, salt, n) == ((i * 7919 + t * (1009 + 37 * salt) + (t * t) * salt + salt * 611953 + (Seed % 1000) * 15485) % n) + 1
 \* in TAB mode equality probes are interesting between rows of the same dimension class
 SameClass(i, j) == IF Mode = "TAB" THEN Tab[i].dc = Tab[j].dc ELSE TRUE
+\* leaves whose string carries no numeric coefficient: a fractional power of a coefficient is an irrational number inside
+\* the expression (sqrt(3)*sqrt(km)), which the exponent-vector model does not represent - the power laws take plain leaves
+PlainL(i) == IF Mode = "TAB" THEN ~Tab[i].co ELSE PlainLeaf(i)
+PlainSeq == SelectSeq([x \in 1..NLeaves |-> x], LAMBDA x : PlainL(x))
+\* the leaves of the same dimension class as leaf i (the model registry: the same dimension vector)
+SameDim(i, j) == IF Mode = "TAB" THEN Tab[i].dc = Tab[j].dc
+                 ELSE DotV(MRLeaves[i].ex, ADIM) = DotV(MRLeaves[j].ex, ADIM) /\ MRLeaves[i].reg = MRLeaves[j].reg
+MatesSeq(i) == SelectSeq([x \in 1..NLeaves |-> x], LAMBDA x : SameDim(i, x))
+CoefPSeq == <<Ex(2, 1, "int"), Ex(-1, 1, "int"), Ex(-2, 1, "int"), Ex(3, 1, "int"), Ex(1, 1, "int")>>
 
 (* ---------------------- registry histories (law "state") ------------------ *)
 \* edits of registry 4: re-scaling, re-definition over the row, removal + re-definition (also with another dimension),
@@ -52,7 +63,7 @@ EditSeq == <<Ed("modify", "la", 2, "la"), Ed("modify", "la", 0, "la"), Ed("modif
              Ed("add", "la", 4, "la"), Ed("add", "la", 1, "ta"), Ed("add", "nq", -2, "nq"), Ed("add", "ma", 0, "ma"),
              Ed("readd", "ta", 2, "la"), Ed("readd", "ma", -2, "ma"), Ed("readd", "lb", 10, "lb"), Ed("readd", "la", 0, "la"),
              Ed("readd", "mb", 3, "ta")>>
-HLeafSeq == SelectSeq([x \in 1..NMR |-> x], LAMBDA x : MRLeaves[x].reg = 1)
+HLeafSeq == SelectSeq([x \in 1..NMR |-> x], LAMBDA x : MRLeaves[x].reg = 1 /\ PlainLeaf(x))
 Touches(e, lv) == \E r \in 1..3 : ~RIsZero(MRLeaves[lv[r]].ex[AIdx(e.sym)])
 \* a history: one or two edits; the first one touches a symbol of the leaves
 HistCase(i, j, k, p, es) == [seed |-> FALSE, law |-> "state", lv |-> <<i, j, k>>, p |-> p, q |-> E1, edits |-> es]
@@ -68,11 +79,22 @@ Next ==
             IF PairN = 0 THEN \E j \in Leaf : c' = Case("comm", i, j, i, E1, E1)
             ELSE \E t \in 1..PairN : c' = Case("comm", i, Sample(i, t, 11, NLeaves), i, E1, E1)
        [] c.law = "ident" -> c' = Case("ident", i, i, i, E1, E1)
-       [] c.law = "eqsem" -> \E j \in Leaf : SameClass(i, j) /\ c' = Case("eqsem", i, j, i, E1, E1)
+       [] c.law = "eqsem" ->
+            IF EqN = 0 THEN \E j \in Leaf : SameClass(i, j) /\ c' = Case("eqsem", i, j, i, E1, E1)
+            \* (table: partners of the same dimension class; model registry: any partner)
+            ELSE LET ms == IF Mode = "TAB" THEN MatesSeq(i) ELSE [x \in 1..NLeaves |-> x] IN
+                 \E t \in 1..EqN : c' = Case("eqsem", i, ms[Sample(i, t, 21, Len(ms))], i, E1, E1)
+       [] c.law = "coef" ->
+            \* the divisor w is a leaf of u's dimension (so that u*v/w cancels and leaves a coefficient) or a sampled one
+            LET ms == MatesSeq(i) IN
+            \E t \in 1..CoefN, mate \in BOOLEAN :
+              c' = Case("coef", i, Sample(i, t, 96, NLeaves),
+                        IF mate THEN ms[Sample(i, t, 97, Len(ms))] ELSE Sample(i, t, 98, NLeaves),
+                        CoefPSeq[Sample(i, t, 99, Len(CoefPSeq))], E1)
        [] c.law = "state" ->
             \* first leaf i (of registry 1's leaves), partner sampled, divisor either sampled or the next leaf (same
             \* dimension for la/lb/lc, ta/tb, ma/mb: a pair that cancels), exponent and one or two edits sampled
-            /\ Mode = "MR" /\ MRLeaves[i].reg = 1
+            /\ Mode = "MR" /\ MRLeaves[i].reg = 1 /\ PlainLeaf(i)
             /\ \E t \in 1..HistN, near \in BOOLEAN, two \in BOOLEAN :
                  LET j == HLeafSeq[Sample(i, t, 91, Len(HLeafSeq))]
                      k == IF near THEN (IF i < Len(HLeafSeq) THEN i + 1 ELSE 1) ELSE HLeafSeq[Sample(i, t, 92, Len(HLeafSeq))]
@@ -89,15 +111,16 @@ Next ==
             ELSE \E t \in 1..TripleN : c' = Case("assoc", i, Sample(i, t, 31, NLeaves), Sample(i, t, 32, NLeaves), E1, E1)
        [] c.law \in {"powpow", "powadd"} ->
             \E x \in DOMAIN PSeq, y \in DOMAIN QSeq :
+              /\ PlainL(i)
               /\ PowN = 0 \/ \E t \in 1..PowN : x = Sample(i, t, 41, Len(PSeq)) /\ y = Sample(i, t, 42, Len(QSeq))
               /\ PSeq[x].kind = "dec2" => QSeq[y].kind # "dec2"
               /\ c' = Case(c.law, i, i, i, PSeq[x], QSeq[y])
        [] c.law = "powmul" ->
-            IF PowMulN = 0 THEN \E j \in Leaf, x \in DOMAIN PSeq : c' = Case("powmul", i, j, i, PSeq[x], E1)
-            ELSE \E t \in 1..PowMulN : c' = Case("powmul", i, Sample(i, t, 61, NLeaves), i, PSeq[Sample(i, t, 62, Len(PSeq))], E1)
+            IF PowMulN = 0 THEN \E j \in Leaf, x \in DOMAIN PSeq : PlainL(i) /\ PlainL(j) /\ c' = Case("powmul", i, j, i, PSeq[x], E1)
+            ELSE \E t \in 1..PowMulN : PlainL(i) /\ c' = Case("powmul", i, PlainSeq[Sample(i, t, 61, Len(PlainSeq))], i, PSeq[Sample(i, t, 62, Len(PSeq))], E1)
        [] c.law = "simp" ->
-            IF SimpN = 0 THEN \E j, k \in Leaf, x \in DOMAIN SimpPSeq : c' = Case("simp", i, j, k, SimpPSeq[x], E1)
-            ELSE \E t \in 1..SimpN : c' = Case("simp", i, Sample(i, t, 71, NLeaves), Sample(i, t, 72, NLeaves), SimpPSeq[Sample(i, t, 73, Len(SimpPSeq))], E1)
+            IF SimpN = 0 THEN \E j, k \in Leaf, x \in DOMAIN SimpPSeq : PlainL(i) /\ c' = Case("simp", i, j, k, SimpPSeq[x], E1)
+            ELSE \E t \in 1..SimpN : PlainL(i) /\ c' = Case("simp", i, Sample(i, t, 71, NLeaves), Sample(i, t, 72, NLeaves), SimpPSeq[Sample(i, t, 73, Len(SimpPSeq))], E1)
 
 \* the effective exponent of every instruction travels with the case (the harness needs its value to measure deviations)
 ExportProg(prog) == [x \in DOMAIN prog |-> [op |-> prog[x].op, a |-> prog[x].a, b |-> prog[x].b, e |-> prog[x].e, eff |-> Eff(prog[x].e)]]
